@@ -959,6 +959,34 @@ func init() {
 		"sameMap": func(m *Machine, st *State, fr *Frame, instr ssa.Instruction, fn *ssa.Function, args []Value) Value {
 			return m.ctx.Eq(args[0].(*Term), args[1].(*Term))
 		},
+		"closureCaptures": func(m *Machine, st *State, fr *Frame, instr ssa.Instruction, fn *ssa.Function, args []Value) Value {
+			f := args[0].(*Term)
+			name := constStringArg(instr, 1)
+			target := m.P.Funcs[name]
+			want, ok := args[2].(*Ptr)
+			if target == nil || !ok {
+				m.problem("closureCaptures: function %q not found in the current tree", name)
+				return m.ctx.F
+			}
+			var alts []*Term
+			for i, b := range m.closureBindings(st, f, target) {
+				cell, isPtr := b.(*Ptr)
+				if !isPtr {
+					continue
+				}
+				pt, isPP := target.FreeVars[i].Type().(*types.Pointer)
+				if !isPP || !types.Identical(pt.Elem(), types.NewPointer(want.Elem)) {
+					continue
+				}
+				if v, isP := m.Load(st, cell).(*Ptr); isP {
+					alts = append(alts, m.ctx.Eq(v.Ref, want.Ref))
+				}
+			}
+			if len(alts) == 0 {
+				return m.ctx.F
+			}
+			return m.ctx.Or(alts...)
+		},
 		"closureVarN": func(m *Machine, st *State, fr *Frame, instr ssa.Instruction, fn *ssa.Function, args []Value) Value {
 			f := args[0].(*Term)
 			name := constStringArg(instr, 1)
